@@ -16,10 +16,16 @@ _TRANSLATE_ERROR = None
 _ROWS = []
 
 
+import hashiter as _hashiter   # noqa: E402
+
+_HASH_FOUND, _HASH_REVIEWED = [], {}
+
+
 def translate():
-    global _TRANSLATE_ERROR, _ROWS
+    global _TRANSLATE_ERROR, _ROWS, _HASH_FOUND, _HASH_REVIEWED
     try:
         _ROWS = _rules.translate(REPO)
+        _HASH_FOUND, _HASH_REVIEWED = _hashiter.translate(REPO)
     except _rules.TranslateError as e:
         _TRANSLATE_ERROR = str(e)
 
@@ -180,6 +186,55 @@ def nest(rng, depth):
     return rng.choice(["let v = ", "fn f()->int{", "type T = ", ""]) + body + rng.choice([";", "}", ""])
 
 
+VALS = {"int": ["7", "42"], "str": ['"seven"', '"x"'], "bool": ["true", "false"], "float": ["1.5", "2.25"]}
+
+
+def gen_generic_program(rng):
+    """a program around a user struct and a user union with 2-3 generic parameters, used with explicit, pairwise different
+    generic arguments in let types, parameter and return types and nested positions; sometimes with a type error whose
+    message prints such types, sometimes with several unimplemented forward functions"""
+    k = rng.choice([2, 2, 3])
+    gens = rng.sample(["K", "V", "W", "A", "B", "T", "U"], k)
+    prims = rng.sample(["int", "str", "bool", "float"], k)
+    fields = rng.sample(["key", "value", "extra", "first", "second", "third"], k)
+    sname, uname = rng.choice(["Entry", "Pair", "Rec"]), rng.choice(["Either", "Choice", "Alt"])
+    G = ", ".join(gens)
+    P = ", ".join(prims)
+    rev = list(reversed(prims))
+    lines = [f"struct {sname}<{G}>(" + ", ".join(f"{f}: {g}" for f, g in zip(fields, gens)) + ")",
+             f"union {uname}<{G}>(" + ", ".join(f"{f}: {g}" for f, g in zip(fields, gens)) + ")"]
+    val = lambda t: rng.choice(VALS[t])
+    args = ", ".join(val(t) for t in prims)
+    lines.append(f"let e: {sname}<{P}> = {sname}({args});")
+    lines.append(f"let u: {uname}<{P}> = {uname}::{fields[-1]}({val(prims[-1])});")
+    lines.append(f"fn swap(x: {sname}<{P}>)->{sname}<{', '.join(rev)}>{{ {sname}(" + ", ".join(f"x::{f}" for f in reversed(fields)) + ") }")
+    lines.append("let s = swap(e);")
+    lines.append(f"fn pick(x: {uname}<{P}>)->Optional<{prims[0]}>{{ x?:{fields[0]} }}")
+    lines.append("let p = pick(u);")
+    inner = f"{sname}<{', '.join(rev)}>"
+    nested_t = f"{sname}<{prims[0]}, " + ", ".join([f"Sequence<{inner}>"] + prims[2:]) + ">"
+    inner_v = f"{sname}(" + ", ".join(val(t) for t in rev) + ")"
+    lines.append(f"let n: {nested_t} = {sname}(" + ", ".join([val(prims[0]), f"[{inner_v}]"] + [val(t) for t in prims[2:]]) + ");")
+    lines.append(f"let g0 = e::{fields[0]};")
+    lines.append(f"let g1 = s::{fields[0]};")
+    names = ["g0", "g1", "p"]
+    kind = rng.random()
+    if kind < 0.35:
+        # a type error whose message prints the generic arguments
+        wrong = ", ".join(val(t) for t in rev)
+        bad = rng.choice([f"let w: {sname}<{P}> = {sname}({wrong});", f"let w = swap({sname}({wrong}));",
+                          f"let w: {uname}<{P}> = {uname}::{fields[0]}({val(prims[1])});", f"let w: {inner} = e;",
+                          f"let w = display(e);", f"let w: int = n;"])
+        lines.insert(rng.randrange(4, len(lines) + 1), bad)
+    elif kind < 0.5:
+        fw = rng.sample(["fa", "fb", "fc", "fd"], rng.choice([2, 3]))
+        lines += [f"forward fn {f}()->int;" for f in fw]
+        lines.append("fn useall()->int{ " + " + ".join(f"{f}()" for f in fw) + " }")
+        lines.append(rng.choice(["let z = useall();", "let z = ()->{ " + " + ".join(f"{f}()" for f in fw) + " };"]))
+        lines += [f"fn {f}()->int{{1}}" for f in fw]
+    return "\n".join(lines) + "\n", names
+
+
 def run(chk):
     rng = chk.rng
     quick = chk.tier == "quick"
@@ -197,7 +252,15 @@ def run(chk):
         stages[name] = round(time.time() - t_stage[0], 1)
         t_stage[0] = time.time()
         chk.coverage["stage_seconds"] = stages
-    ok = chk.prove(extra_targets=["Generated.Rules"])
+    new_sites = [k for k in _HASH_FOUND if k not in _HASH_REVIEWED]
+    gone_sites = [k for k in _HASH_REVIEWED if k not in _HASH_FOUND]
+    chk.coverage["hash_iteration_sites"] = {"found": len(_HASH_FOUND), "reviewed": len(_HASH_REVIEWED)}
+    if (new_sites or gone_sites) and not _TRANSLATE_ERROR:
+        chk.violation("tie:hash-iteration",
+                      "the compile path iterates over a HashMap/HashSet at a site that is not in the reviewed table (iteration order is random per "
+                      f"instance: a determinism hazard): new={new_sites} vanished={gone_sites}",
+                      {"translator": "translate/hashiter.py", "new_sites": new_sites, "vanished_sites": gone_sites}, no_input=True)
+    ok = chk.prove(extra_targets=["Generated.Rules", "Generated.HashIter"])
     if not ok:
         handle_broken(chk)
     stage("proofs+audit")
@@ -348,6 +411,33 @@ def run(chk):
         names = sorted(set(_re.findall(r"let ([a-z_][a-z_0-9]*)", t)))[:6]
         before = [rng.choice(base) for _ in range(rng.choice([0, 1, 3]))] + [mutate(rng, rng.choice(base), base)]
         dets.append({"op": "lex", "f": "determinism", "src": t, "before": before, "get": names})
+    # ---- many fresh compilations of one text must give ONE outcome (order-of-iteration nondeterminism shows only in a
+    # fraction of the compilations): generated programs around multi-parameter generic structs/unions, and a sample of the
+    # determinism texts above
+    n_rep = 16 if quick else 48
+    reps = [gen_generic_program(rng) for _ in range(70 if quick else 1200)]
+    reps += [("struct Entry<K, V>(key: K, value: V)\nlet e: Entry<int, str> = Entry(7, \"seven\");\nlet k = e::key;\n", ["k"]),
+             ("forward fn a()->int;\nforward fn b()->int;\nfn g()->int{ a() + b() }\nlet x = g();\nfn a()->int{1}\nfn b()->int{2}\n", [])]
+    for src, names in reps:
+        dets.append({"op": "lex", "f": "determinism", "src": src, "before": [rng.choice(base)], "get": names})
+    rep_reqs = [{"op": "lex", "f": "repeat", "src": src, "n": n_rep} for src, _ in reps]
+    rep_reqs += [{"op": "lex", "f": "repeat", "src": q["src"], "n": 8 if quick else 16} for q in rng.sample(dets[:-len(reps)], min(len(dets) - len(reps), 40 if quick else 600))]
+    for q, r in zip(rep_reqs, run_harness(rep_reqs, per_req_timeout=60.0)):
+        chk.evaluations += 1
+        replay = {"harness": q, "got": r}
+        if "outcomes" not in r:
+            kind = "panic" if "panic" in r else "abort" if "abort" in r else "hang"
+            where = _re.sub(r"^/repo/", "", str(r.get("panic", ""))).split(":")[0] if kind == "panic" else ""
+            chk.violation(f"total:{kind}:{where}", f"feed_file does not return ({kind}) on {q['src'][:120]!r}", replay)
+            continue
+        outs = r["outcomes"]
+        chk.count("repeat:" + ("accept" if outs[0]["outcome"] == "ok" else "reject"))
+        chk.nontrivial.add(q["src"])
+        if len(outs) != 1:
+            shown = "; ".join(f"{o['count']}x " + (o["outcome"] if o["outcome"] == "ok" else o["outcome"].get("msg", "?").replace("\n", " ")[:160]) for o in outs)
+            chk.violation("determinism:repeat", f"{q['n']} compilations of the same text in fresh scopes gave {len(outs)} different outcomes ({shown}): {q['src'][:200]!r}", replay)
+    stage("repeat")
+
     # witness of a repaired defect: the error text embedded a HashMap's (random) iteration order
     dets.append({"op": "lex", "f": "determinism", "before": [], "get": [],
                  "src": "struct Vector(x: float, y: float, z: float, w: float)\nfn main()->bool{\n let v = Vector(3.0,4.0,5.0,6.0);\n assert(v.display().to_str() == \"\")\n}"})
